@@ -60,6 +60,8 @@ class BuildResult:
         self.log = ""
         self.failed_files = []  # .v files whose compilation failed
         self.constants_drift = []
+        self.gen_drift = []  # kernels harness/translate.py could not translate
+        self.gen_changed = False
         self.regenerated = False
 
 
@@ -72,12 +74,13 @@ def _flock():
 
 def ensure_build(props=None, verbose=False):
     """Regenerate constants, run make -k, (re)build extraction drivers for `props` (list of ids)."""
-    from harness import constants
+    from harness import constants, translate
 
     res = BuildResult()
     lock = _flock()
     try:
         res.regenerated, res.constants_drift = constants.regenerate()
+        res.gen_changed, res.gen_drift = translate.regenerate()  # coq/Gen/<Name>.v from the Python source
         sh(os.path.join(VERIF, "bin", "mkproject"))
         rc, out = sh("timeout 3000 make -k -j%d 2>&1" % (os.cpu_count() or 4), cwd=COQ, timeout=3100)
         res.log = out
